@@ -235,7 +235,10 @@ func (s *CallableStepSchema[StepData, InputType]) Call(ctx context.Context, runI
 			fmt.Errorf("undeclared output ID: %s", outputID),
 		}
 	}
-	return outputID, outputData, output.Validate(outputData)
+	if err := output.Validate(outputData); err != nil {
+		return "", nil, InvalidOutputError{err}
+	}
+	return outputID, outputData, nil
 }
 
 func (s *CallableStepSchema[StepData, InputType]) CallSignal(
